@@ -102,6 +102,7 @@ func c11FlagWriters(r *Run, R string) {
 		}
 		// (b) stop function: every call of it is the operand of a return statement of the interpreter loop
 		ncalls, okAll := 0, true
+		var unguarded []string
 		for _, caller := range fns {
 			cinfo := caller.Pkg.TypesInfo
 			cpar := r.P.Parents(caller.File)
@@ -113,12 +114,57 @@ func c11FlagWriters(r *Run, R string) {
 				_, isRet := cpar[c].(*ast.ReturnStmt)
 				if !isRet || caller.Obj != a.loop.Obj {
 					okAll = false
+					continue
+				}
+				// … and the call is taken only after the cancellation was observed: on the true edge of a
+				// test of the flag (an atomic load of it) or of the index reflect.Select chose
+				g := r.P.CFGOf(caller)
+				selRes := map[types.Object]bool{}
+				ast.Inspect(caller.Decl.Body, func(m ast.Node) bool {
+					if as, ok := m.(*ast.AssignStmt); ok && len(as.Rhs) == 1 && len(as.Lhs) >= 1 {
+						if rc, ok := ast.Unparen(as.Rhs[0]).(*ast.CallExpr); ok {
+							if f := callee(cinfo, rc); f != nil && isPkgFunc(f, "reflect", "", "Select") {
+								if o := objOfIdent(cinfo, as.Lhs[0]); o != nil {
+									selRes[o] = true
+								}
+							}
+						}
+					}
+					return true
+				})
+				observed := g.GuardedBy(c, func(l Lit) bool {
+					if l.Tag != nil || !l.Truth {
+						return false
+					}
+					found := false
+					ast.Inspect(l.Expr, func(m ast.Node) bool {
+						switch y := m.(type) {
+						case *ast.CallExpr:
+							if kind, f, _ := c11Atomic(cinfo, y); kind == "load" && f == a.fDone {
+								found = true
+							}
+						case *ast.Ident:
+							if selRes[cinfo.Uses[y]] {
+								found = true
+							}
+						}
+						return true
+					})
+					return found
+				})
+				if !observed {
+					okAll = false
+					unguarded = append(unguarded, r.P.Pos(c.Pos()))
 				}
 			}
 		}
 		sig := s.fi.Obj.Type().(*types.Signature)
 		if ncalls > 0 && okAll && sig.Recv() != nil {
 			o.OK("%s is the stop function: all %d calls are `return %s()` in the interpreter loop (taken when the flag or the done case was seen)", s.fi.Name(), ncalls, s.fi.Decl.Name.Name)
+			continue
+		}
+		if len(unguarded) > 0 {
+			o.Bad("%s, which stores the cancellation flag, is called at %v without having observed the cancellation (no test of the flag or of the case reflect.Select chose on the way): Run then returns ctx.Err() — nil for a live context — instead of the code's own outcome, and a program that does not terminate returns before any cancellation", s.fi.Name(), unguarded)
 			continue
 		}
 		o.Bad("%s stores the cancellation flag outside the watcher and the stop function: after the loop ends the run driver returns ctx.Err() whenever the flag is set, so the code's own outcome (a panic, the writer's error) is replaced — by nil when the context was not cancelled", s.fi.Name())
